@@ -119,7 +119,8 @@ TYPE_NAMES = {"dict": dict, "list": list, "tuple": tuple, "str": str, "bytes": b
 
 
 class Evaluator(object):
-    def __init__(self, prog, module, cls=None, max_runs=4096, lenient=False):
+    def __init__(self, prog, module, cls=None, max_runs=4096, lenient=False, stubs=None):
+        self.stubs = stubs or {}    # function fq -> python callable(arg values) standing for a package function
         self.lenient = lenient      # unmodelled *value* expressions become opaque symbols (conditions on them fork)
         self.prog = prog
         self.module = module
@@ -296,10 +297,20 @@ class Evaluator(object):
                 self.block(st.body, env, fi)
             self.block(st.orelse, env, fi)
             return
-        if isinstance(st, ast.AugAssign) and self.lenient:
-            self.expr(st.value, env, fi)
-            self.assign(st.target, Sym("opaque:" + dump(st)[:60]), env, fi)
-            return
+        if isinstance(st, ast.AugAssign):
+            cur = None
+            try:
+                cur = self.expr(st.target, env, fi)
+            except AnalysisError:
+                cur = None
+            v = self.expr(st.value, env, fi)
+            if isinstance(cur, K) and isinstance(v, K) and isinstance(st.op, (ast.Add, ast.Sub)):
+                self.assign(st.target, K(cur.v + v.v if isinstance(st.op, ast.Add) else cur.v - v.v), env, fi)
+                return
+            if self.lenient:
+                self.assign(st.target, Sym("opaque:" + dump(st)[:60]), env, fi)
+                return
+            raise AnalysisError("augmented assignment not modelled: %s" % dump(st))
         if isinstance(st, ast.With) and self.lenient:
             self.block(st.body, env, fi)
             return
@@ -436,6 +447,20 @@ class Evaluator(object):
             if self.truth(self.expr(e.test, env, fi)):
                 return self.expr(e.body, env, fi)
             return self.expr(e.orelse, env, fi)
+        if isinstance(e, ast.BinOp):
+            a = self.expr(e.left, env, fi)
+            b = self.expr(e.right, env, fi)
+            if isinstance(a, K) and isinstance(b, K) and isinstance(e.op, (ast.Add, ast.Sub, ast.Mult)):
+                try:
+                    if isinstance(e.op, ast.Add):
+                        return K(a.v + b.v)
+                    if isinstance(e.op, ast.Sub):
+                        return K(a.v - b.v)
+                    return K(a.v * b.v)
+                except TypeError:
+                    raise _Raise("TypeError")
+            if self.lenient:
+                return Sym("opaque:" + dump(e)[:60])
         if self.lenient and isinstance(e, (ast.BinOp, ast.JoinedStr, ast.ListComp, ast.DictComp, ast.GeneratorExp)):
             return Sym("opaque:" + dump(e)[:60])
         raise AnalysisError("expression not modelled by the shape interpreter: %s" % dump(e))
@@ -540,6 +565,16 @@ class Evaluator(object):
                 except (TypeError, ValueError) as ex:
                     raise _Raise(type(ex).__name__)
             return Sym("float(%s)" % a.label, truthy=a.truthy, rep=None if a.rep is None else float(a.rep), pytype=float)
+        if fname == "int" and len(args) == 1:
+            if isinstance(args[0], K):
+                try:
+                    return K(int(args[0].v))
+                except (TypeError, ValueError) as ex:
+                    raise _Raise(type(ex).__name__)
+            if isinstance(args[0], (D, L, Obj, Opaque)):
+                raise _Raise("TypeError")
+        if fname == "range" and len(args) in (1, 2) and all(isinstance(a, K) and isinstance(a.v, int) for a in args):
+            return K(tuple(range(*[a.v for a in args])))
         if fname == "type" and len(args) == 1:
             if isinstance(args[0], K) and args[0].v is None:
                 return K("type:NoneType")
@@ -617,6 +652,9 @@ class Evaluator(object):
         if isinstance(f, ast.Attribute):
             base = self.expr(f.value, env, fi)
             if isinstance(base, Obj):
+                key = "%s.%s.%s" % (fi.module, base.cls, f.attr)
+                if key in self.stubs:
+                    return self.stubs[key](*args, **kwargs)
                 m = self.prog.mro_lookup(self.prog.classes["%s.%s" % (fi.module, base.cls)], f.attr) \
                     if "%s.%s" % (fi.module, base.cls) in self.prog.classes else None
                 if m is None:
@@ -637,7 +675,10 @@ class Evaluator(object):
                     base.keys[args[0].v] = args[1] if len(args) > 1 else K(None)
                 return base.keys[args[0].v]
             if isinstance(base, Opaque):
-                return Opaque("%s.%s()" % (base.label, f.attr))
+                rv = base.attrs.get(f.attr + "()")
+                if rv is not None:
+                    return rv
+                return Opaque("%s.%s()" % (base.label, f.attr), truthy=None)
             if isinstance(base, (K, L)) and f.attr in ("get", "keys", "values", "items"):
                 raise _Raise("AttributeError")
         # package-level functions and classes
